@@ -215,6 +215,11 @@ def h_inplace_rank(ctx, op, rkind, rshape, D, P):
         ctx.eq(plain(x.data), before, 'left operand untouched by the rejected operation')
 
 
+def math_fact(k):
+    import math
+    return math.factorial(k - 1) if k >= 1 else 1
+
+
 def h_pow_kinds(ctx, which, D, P):
     """powers with non-UTPM base / exponent kinds, against the C01 oracle"""
     algopy = symx.load_algopy()
@@ -345,6 +350,26 @@ def h_pow_kinds(ctx, which, D, P):
                 for d in range(D):
                     ctx.fact(abs(box['z'][d, p, i] - ref[d]) <= 1e-6 * max(1.0, abs(ref[d])), '(x ** %r)[%d,%d,%d] == exp(n log x) to 1e-6 (got %r, expected %r)' % (r, d, p, i, box['z'][d, p, i], ref[d]))
         return
+    elif which == 'negpolybase_complex_poly':
+        # real POLYNOMIAL base with a negative zeroth coefficient, complex polynomial exponent:
+        # exp(z log x) with the complex logarithm; decided on the float build
+        if ctx.mode == 'sym':
+            ctx.fact(True, 'complex polynomial exponent: decided on the float build')
+            ctx.eq(S.const(0), S.const(0), 'z')
+            return
+        import cmath
+        Xb = np.array([[[-(1.5 + abs(float(X[0, p, i]))) if d == 0 else float(X[d, p, i]) for i in range(2)] for p in range(P)] for d in range(D)])
+        Zc = np.array([[[complex(0.5 * float(X[d, p, 1 - i]), 0.3 * (d + 1) - 0.2 * i) for i in range(2)] for p in range(P)] for d in range(D)])
+        w = plain((algopy.UTPM(Xb.copy()) ** algopy.UTPM(Zc.copy())).data)
+        for p in range(P):
+            for i in range(2):
+                xs = [complex(Xb[d, p, i]) for d in range(D)]
+                L = lib.compose([cmath.log(xs[0])] + [(-1) ** (k + 1) * math_fact(k) / xs[0] ** k for k in range(1, D)], xs, D)
+                M = [sum(L[k] * Zc[d - k, p, i] for k in range(d + 1)) for d in range(D)]
+                ref = lib.compose([cmath.exp(M[0])] * D, M, D)
+                for d in range(D):
+                    ctx.eq(w[d, p, i], ref[d], '(x ** z)[%d,%d,%d], x_0 < 0' % (d, p, i))
+        return
     elif which in ('negbase_complex_poly', 'posbase_complex_poly'):
         # real scalar base (negative: log on the principal complex branch), COMPLEX polynomial exponent:
         # decided on the float build, reference exp(log(b) * z) by composition
@@ -469,7 +494,7 @@ def units(tier, seed):
     for op in ('mul', 'div'):
         add('utpm %s utpm/(),()/D17,P1' % op, 'h_binop', op=op, lkind='utpm', rkind='utpm', lshape=(), rshape=(), D=17, P=1)
         add('utpm %s= utpm/(2,),(2,)/D17,P1' % op, 'h_binop', op=op, lkind='utpm', rkind='utpm', lshape=(2,), rshape=(2,), D=17, P=1, form='inplace')
-    for which in ('uint8_base', 'int8_base', 'float32_base', 'float16_base', 'int16_base', 'bigint_base', 'pycomplex_exp', 'npcomplex_exp', 'npcomplex64_exp', 'nd0complex_exp', 'negbase_complex_poly', 'posbase_complex_poly', 'huge_int_exp', 'huge_intvalued_float_exp'):
+    for which in ('uint8_base', 'int8_base', 'float32_base', 'float16_base', 'int16_base', 'bigint_base', 'pycomplex_exp', 'npcomplex_exp', 'npcomplex64_exp', 'nd0complex_exp', 'negbase_complex_poly', 'posbase_complex_poly', 'negpolybase_complex_poly', 'huge_int_exp', 'huge_intvalued_float_exp'):
         add('pow/%s' % which, 'h_pow_kinds', which=which, D=D + 1, P=P)
     for which in ('pyfloat_base', 'pyint_base', 'npfloat_exp', 'npint_exp', 'negint_exp', 'pyint_exp0', 'pyint_exp1', 'pyint_exp2', 'pyint_exp3', 'pyint_exp4', 'pyint_exp5', 'pyint_exp7', 'pyint_exp6', 'pyint_exp9',
                   'intvalued_pyfloat2', 'intvalued_npfloat3', 'intvalued_float32_2', 'intvalued_nd0int2', 'intvalued_nd0float4', 'intvalued_pyfloat6', 'intvalued_int8_3', 'intvalued_uint8_2',
